@@ -202,9 +202,8 @@ def run_elbo(m, n_eig, shift=None, record_batches=False, outdir=None, **kw):
     if record_batches:
         elb.ssl = proxy
     try:
-        kwargs = dict(verbose=False)
-        if outdir is not None:
-            kwargs["output_directory"] = outdir
+        # nifty.re's default output_directory="" means the current directory: never write there
+        kwargs = dict(verbose=False, output_directory=outdir)
         kwargs.update(kw)
         e, st = jft.estimate_evidence_lower_bound(lh, smp, n_eig, **kwargs)
     finally:
